@@ -134,8 +134,12 @@ class Check:
             exp = json.loads(FP_EXPECTED.read_text()) if FP_EXPECTED.exists() else {}
         except json.JSONDecodeError:
             exp = {}
+        mine = set()
+        for gf, st in res.gen_status.get("files", {}).items():
+            if gf in gen_files:
+                mine.update(st.get("fingerprints", []))
         for k, v in res.gen_status.get("fingerprints", {}).items():
-            if k in exp and exp[k] != v:
+            if k in mine and k in exp and exp[k] != v:
                 self.fingerprint_changed.append(k)
         self.build_result = res
         return res
